@@ -36,6 +36,8 @@ var c07HandTexts = []string{
 	"\n",
 	"",
 	" \t \n\t\n",
+	// nothing visible, but not blank for klog: other white-space characters
+	"\f", "\v\n", "\r", "\u00a0", "\u3000\n\n", " \u00a0 \n", "\n\u2028\n", "\u0085", "\t\r\t", "\u200b",
 	"2020-01-01\n    1h\n        more\n        lines\n    2h x\n\n\n\n2020-01-02 (8h!)\n    <23:00 - 1:00>\n",
 }
 
